@@ -393,7 +393,7 @@ Proof.
   split; [constructor; [exact Hw|constructor]|]. cbn [flat_map]. now rewrite He.
 Qed.
 
-Lemma influx_line_ok p l : calls_ok (influx_line_calls p l) (influx_line_entries p l).
+Lemma influx_line_ok p now l : calls_ok (influx_line_calls p now l) (influx_line_entries p now l).
 Proof.
   unfold influx_line_calls, influx_line_entries.
   destruct (find is_message (il_fields l)) as [[nm v]|].
@@ -408,8 +408,8 @@ Proof.
     + apply calls_ok_nil.
 Qed.
 
-Lemma influx_ok p body : calls_ok (calls_influx p body) (entries_influx p body).
-Proof. unfold calls_influx, entries_influx. apply calls_ok_flat_map. intros l _. apply influx_line_ok. Qed.
+Lemma influx_ok p ck body : calls_ok (calls_influx p ck body) (entries_influx p ck body).
+Proof. unfold calls_influx, entries_influx. apply (calls_ok_flat_map (fun q => influx_line_calls p (fst q) (snd q)) (fun q => influx_line_entries p (fst q) (snd q))). intros l _. apply influx_line_ok. Qed.
 
 Lemma calls_ok_map1 {A} (f : A -> call) (g : A -> entry) (l : list A) :
   (forall x, In x l -> call_wf (f x) /\ call_entries (f x) = [g x]) -> calls_ok (map f l) (map g l).
@@ -613,9 +613,9 @@ Lemma wrap64_id z : -9223372036854775808 <= z < 9223372036854775808 -> wrap64 z 
 Proof. intros H. unfold wrap64. rewrite Z.mod_small by lia. lia. Qed.
 
 (* the order in which Go visits the fields of an Influx line only permutes that line's rows *)
-Lemma influx_fields_perm p meas tags ts f1 f2 :
+Lemma influx_fields_perm p now meas tags ts f1 f2 :
   Permutation.Permutation f1 f2 -> find is_message f1 = None -> find is_message f2 = None ->
-  Permutation.Permutation (influx_line_entries p (IL meas tags f1 ts)) (influx_line_entries p (IL meas tags f2 ts)).
+  Permutation.Permutation (influx_line_entries p now (IL meas tags f1 ts)) (influx_line_entries p now (IL meas tags f2 ts)).
 Proof.
   intros HP H1 H2. unfold influx_line_entries. cbn [il_fields il_meas il_tags il_ts]. rewrite H1, H2.
   induction HP; cbn [flat_map].
@@ -654,5 +654,18 @@ Proof.
     pose proof (sent_prefix_stable fp enc_len CS cache_add threshold ctx_ttl (firstn n ks) (skipn n ks) (empty_chunk, cache0)) as H.
     rewrite firstn_skipn in H. exact H.
   - apply decode_faithful_all.
+Qed.
+
+(* an Influx line without a timestamp is stamped with the clock reading truncated to the precision: at most one unit of the
+   precision before the reading, never after it *)
+Lemma influx_ts_bounds precision now l : 0 < precision ->
+  match il_ts l with
+  | Some t => influx_ts precision now l = wrap64 (t * precision)
+  | None => now - precision < influx_ts precision now l <= now /\ (influx_ts precision now l) mod precision = 0
+  end.
+Proof.
+  intro Hp. unfold influx_ts. destruct (il_ts l) as [t|]; [reflexivity|].
+  pose proof (Z.div_mod now precision ltac:(lia)) as D. pose proof (Z.mod_pos_bound now precision Hp) as B.
+  split; [nia|]. apply Z.mod_mul. lia.
 Qed.
 
